@@ -26,6 +26,11 @@
 /* the ghost source offset (in THIS stream's coordinates: F_SOFF(s), valid when F_SOFF_OK(s)) lies among the n bytes from the old position */
 #define KR_SOFF_IN(F, s, n)   (F##_SOFF_OK(s) && F##_SOFF(s) >= F##_POS_OLD(s) && F##_SOFF(s) - F##_POS_OLD(s) < (uint64_t)(n))
 
+/* the first 64 delivered bytes, spelled out index by index (fixed-size records are parsed field by field from them) */
+#define KR_B(F, s, buffer, size, k) ((uint64_t)(k) >= (uint64_t)(size) || ((const char *)buffer)[k] == F##_BUF(s)[F##_POS_OLD(s) + (k)])
+#define KR_B8(F, s, b, n, k) (KR_B(F, s, b, n, k) && KR_B(F, s, b, n, (k) + 1) && KR_B(F, s, b, n, (k) + 2) && KR_B(F, s, b, n, (k) + 3) && KR_B(F, s, b, n, (k) + 4) && KR_B(F, s, b, n, (k) + 5) && KR_B(F, s, b, n, (k) + 6) && KR_B(F, s, b, n, (k) + 7))
+#define KR_FIRST64(F, s, b, n) (KR_B8(F, s, b, n, 0) && KR_B8(F, s, b, n, 8) && KR_B8(F, s, b, n, 16) && KR_B8(F, s, b, n, 24) && KR_B8(F, s, b, n, 32) && KR_B8(F, s, b, n, 40) && KR_B8(F, s, b, n, 48) && KR_B8(F, s, b, n, 56))
+
 /* Read(buf, n): normal exit iff n <= len - pos; atomic on failure */
 #define KR_READ(m, F, s, buffer, size) \
   __CPROVER_requires(F##_PRE_##m(s)) \
@@ -100,6 +105,12 @@ typedef struct Rd { const char* src; uint64_t len; uint64_t pos; } Rd;
 #define RD_PRE(r) RDF_PRE_E(r)
 
 void     Rd_Read(Rd* r, void* buffer, size_t size)            KR_READ(U, RDF, r, buffer, size);
+/* Rd_ReadRec8/16/24: the SAME operation and the SAME contract, with the byte clause instantiated at the indices 0..7 / 0..15 / 0..23 instead of the one
+   arbitrary ghost index gk.  Because gk is arbitrary, K_R holds at every index; spelling out these instances is a logical consequence
+   (universal instantiation), used where a fixed-size record is parsed field by field. */
+void     Rd_ReadRec8(Rd* r, void* buffer, size_t size)        KR_READ(U, RDF, r, buffer, size) __CPROVER_ensures(op2_exc || KR_B8(RDF, r, buffer, size, 0));
+void     Rd_ReadRec16(Rd* r, void* buffer, size_t size)       KR_READ(U, RDF, r, buffer, size) __CPROVER_ensures(op2_exc || (KR_B8(RDF, r, buffer, size, 0) && KR_B8(RDF, r, buffer, size, 8)));
+void     Rd_ReadRec24(Rd* r, void* buffer, size_t size)       KR_READ(U, RDF, r, buffer, size) __CPROVER_ensures(op2_exc || (KR_B8(RDF, r, buffer, size, 0) && KR_B8(RDF, r, buffer, size, 8) && KR_B8(RDF, r, buffer, size, 16)));
 size_t   Rd_ReadPartial(Rd* r, void* buffer, size_t size)     KR_READPARTIAL(U, RDF, r, buffer, size);
 uint64_t Rd_Length(Rd* r)                                     KR_LENGTH(U, RDF, r);
 uint64_t Rd_Position(Rd* r)                                   KR_POSITION(U, RDF, r);
